@@ -4,12 +4,13 @@
 P=$1; K=$2; shift 2; CHECKS="$P $@"
 SRC=${SEED_SRC:-/tmp/seed}/$P-out; DST=/verif/seeded/$P-${SEED_TAG:-}$K; WT=/tmp/ev-repo-$P-${SEED_TAG:-}$K
 mkdir -p $DST; cp $SRC/patch$K.diff $DST/patch.diff; cp $SRC/demo$K.rs $DST/demo.rs; cp $SRC/meta$K.json $DST/meta_agent.json
-export CARGO_NET_OFFLINE=true CARGO_TARGET_DIR=/tmp/ev-target
-git -C /repo worktree add -q $WT HEAD || exit 2
+export CARGO_NET_OFFLINE=true CARGO_TARGET_DIR=${EV_TARGET:-/tmp/ev-target}
+git -C /repo worktree add -q --detach $WT HEAD || exit 2
+cp /repo/Cargo.lock $WT/ 2>/dev/null
 mkdir -p $WT/tests; cp $DST/demo.rs $WT/tests/seed_demo.rs
 cd $WT
 cargo test --offline --features serde,base64 --test seed_demo > $DST/demo_clean.log 2>&1; CLEAN=$?
-git apply $DST/patch.diff || { echo "patch does not apply"; }
+git apply $DST/patch.diff 2>/dev/null || git apply --3way $DST/patch.diff || { echo "patch does not apply"; }
 cargo test --offline --lib --features serde,base64 > $DST/unit_mutated.log 2>&1; UNIT=$?
 cargo test --offline --features serde,base64 --test seed_demo > $DST/demo_mutated.log 2>&1; MUT=$?
 rm -f tests/seed_demo.rs
